@@ -456,10 +456,28 @@ func cmdCheck(prop, tier string) int {
 		maxSamples = 64
 	}
 	if len(samples) > maxSamples {
-		step := float64(len(samples)) / float64(maxSamples)
+		// at least one sample of every harness function (so that a model-based harness is always confronted
+		// with the real environment), the rest spread evenly
 		var sel []*PathSample
-		for i := 0; i < maxSamples; i++ {
-			sel = append(sel, samples[int(float64(i)*step)])
+		taken := map[*PathSample]bool{}
+		seenRoot := map[string]bool{}
+		for _, sm := range samples {
+			if !seenRoot[sm.Root] {
+				seenRoot[sm.Root] = true
+				sel = append(sel, sm)
+				taken[sm] = true
+			}
+		}
+		rest := maxSamples - len(sel)
+		if rest > 0 {
+			step := float64(len(samples)) / float64(rest)
+			for i := 0; i < rest; i++ {
+				sm := samples[int(float64(i)*step)]
+				if !taken[sm] {
+					taken[sm] = true
+					sel = append(sel, sm)
+				}
+			}
 		}
 		samples = sel
 	}
@@ -739,6 +757,12 @@ func cmdCheck(prop, tier string) int {
 		}
 		sampleOut = append(sampleOut, map[string]any{"harness": s.Root, "args": s.Args, "path_witness_model": fmtModel(s.Model), "observed": s.Obs, "reached": s.Reached, "native": s.Native})
 	}
+	nativeByHarness := map[string]int{}
+	for _, s := range samples {
+		if s.Native == "agrees" {
+			nativeByHarness[s.Root]++
+		}
+	}
 	for _, f := range findings {
 		sampleOut = append(sampleOut, map[string]any{"finding": f.ID, "kind": f.Kind, "harness": f.Root, "args": f.Args, "model": fmtModel(f.Model), "verdict": f.Verdict, "paths": f.Paths})
 	}
@@ -759,6 +783,7 @@ func cmdCheck(prop, tier string) int {
 			"transitions":                   agg.forks + agg.paths,
 			"traces_validated_against_impl": validated,
 			"samples":                       sampleOut,
+			"native_runs_agreeing_per_harness": nativeByHarness,
 			"exhaustive":                    false,
 			"technique":                     "bounded symbolic execution of go/ssa built from /repo's working tree; every assertion/panic condition decided by z3 over all values of the symbolic inputs within the bounds",
 			"functions_encoded":             map[string]any{"repo": repoFuncs, "dependencies": depFuncs, "harness": harnessFuncs},
